@@ -189,6 +189,10 @@ def run(ctx, n_override=None):
                     if r['acct'] == nacct:
                         nrows += 1
                         got[r['amt'][0]] = got.get(r['amt'][0], 0) + r['amt'][1]
+                # "on the same account": written [Account] / (Account), every inferred posting is that kind of posting too
+                if nulls and any(r['acct'] == nacct and r['virtual'] != (nulls[0].kind != 'R') for r in rows.get(i, [])):
+                    res.violations.append(dict(key='null-fill-kind-changed', desc='the elided posting is written as a %s posting; an inferred posting on %s is not' % ({'R': 'real', 'B': '[balanced virtual]', 'V': '(virtual)'}[nulls[0].kind], nacct),
+                                               case=dict(journal=text, xact=i), observed=impl, required='every inferred posting of the same kind'))
                 want = {c: -v for c, v in exp.items()}
                 if {c: v for c, v in got.items() if v != 0} != {c: v for c, v in want.items() if v != 0}:
                     res.violations.append(dict(key='null-fill-wrong-amount', desc='elided posting received %s, the negated sum of the rest is %s' % (got, want),
